@@ -126,5 +126,15 @@ func (fx *fexec) ifaceModel(name string, x *ssa.Call, recv Val, args []Val, st *
 		vc.note("interface method " + name + " modelled as a pure uninterpreted function")
 		return v, true
 	}
-	return Val{}, false
+	// general (assumed) contract on the interface method
+	sig := x.Call.Method.Type().(*types.Signature)
+	vars := map[string]Val{"self": recv}
+	for i := 0; i < sig.Params().Len() && i < len(args); i++ {
+		if n := sig.Params().At(i).Name(); n != "" {
+			vars[n] = args[i]
+		}
+		vars["a"+strconv.Itoa(i)] = args[i]
+	}
+	vc.note("interface method " + name + " replaced by its assumed contract")
+	return fx.applyContractSig(c, sig, vars, vc.eng.pkgTypes(c.Pkg, fx.fn.Pkg.Pkg), st, fx.posOf(x), x.Name()), true
 }
